@@ -102,6 +102,7 @@ func vhC05PutStep() {
 	if overwrite {
 		vsCover("overwrite")
 	}
+	vhSharedMaxIntact()
 }
 
 // C06 on the store: (b) a put is refused for insufficient radius only when the big-endian XOR
@@ -120,7 +121,7 @@ func vhC06PebbleAdmission() {
 	err := cs.Put(nil, id, vsBytesN("content", 1))
 	dist := xor(id, node[:])
 	below := bytes.Compare(dist, rb[:]) < 0
-	if radius.Eq(storage.MaxDistance) {
+	if radius.Eq(vhMaxDist()) {
 		vsAssert((err == storage.ErrInsufficientRadius) == !below, "max-radius/refused-iff-distance-not-below-radius")
 		vsCover("max-radius")
 	} else if vhByteSymmetric(dist) {
@@ -139,40 +140,4 @@ func vhC06PebbleAdmission() {
 //verif:harness C06.pebble_radius unwind=60 timeout=240/600 wall=1200/3600
 //verif:use kv
 //verif:param N=2/3
-func vhC06PebbleRadius() {
-	n := 1 + vsChoose("items", vsParam("N"))
-	s := vhMakeState(n, vhCap)
-	node := vsArr32("node")
-	cs := vhStorage(s, node, vhCap, uint256.NewInt(0).SetAllOne())
-	vsAssume(s.record >= s.kv.held() && s.record <= vhCap)
-	id := vsBytesN("id", 32)
-	vsAssume(!bytes.Equal(id, node[:]))
-	ln := uint64(vsU32("len") & 0x1fffff) // lengths are below 2^21 (assumed below); narrow terms help the solver
-	vsAssume(ln <= vhCap)
-	err := cs.Put(nil, id, vsBytesN("content", int(ln)))
-	if err != nil {
-		return
-	}
-	r := cs.Radius()
-	vsAssert(!r.Gt(storage.MaxDistance), "radius-never-above-maximum")
-	if r.Eq(storage.MaxDistance) {
-		vsCover("radius-unchanged")
-		return
-	}
-	vsCover("radius-shrunk")
-	rb := vhBE(r)
-	symmetric := vhByteSymmetric(rb)
-	for _, e := range s.kv.live {
-		if bytes.Equal(e.key, vhZeroKey) {
-			continue
-		}
-		if symmetric {
-			// the radius was read off a key that is the same in both byte orders: outside KF-C06-2
-			vsAssert(bytes.Compare(e.key, rb) <= 0, "byte-symmetric-radius/retained-item-within-new-radius")
-			vsCover("byte-symmetric-radius")
-		} else {
-			// Region of known finding KF-C06-2 (little-endian decoding of the key bytes).
-			vsAssert(bytes.Compare(e.key, rb) <= 0, "retained-item-within-new-radius")
-		}
-	}
-}
+func vhC06PebbleRadius() { vhPebblePruneStep(true) }
